@@ -6,6 +6,7 @@ CONSTANTS
   OrthTol = 10000
   LowSlack = 10
   PromiseIterMax = 50
+  PromiseFloorMax = 100
 INVARIANTS Accepted
 CONSTRAINT Progress
 POSTCONDITION Report
